@@ -63,6 +63,7 @@ type Ev struct {
 	MaskOK               bool
 	TargetAtDelivery     ecs.Entity
 	ChaosEscaped         bool // a structural call inside a removal notification did not panic
+	UnlockedAfterNested  bool // the notification opened and closed as many nested queries as the world allowed and found the world unlocked
 	Foreign              bool // event mentions an ID that is not a live type
 }
 
@@ -221,6 +222,9 @@ func staticRes[T any](s *Sys, slot int, variant string, path int, mk func() *T, 
 	switch variant {
 	case "Add":
 		v := mk()
+		if s.applySeq%9 == 4 {
+			v = nil // a typed nil pointer is a value like any other: the resource is present, Get returns nil
+		}
 		if path == 2 {
 			ecs.AddResource[T](w, v)
 		} else {
@@ -332,6 +336,33 @@ func (l *recListener) Notify(w *ecs.World, e ecs.EntityEvent) {
 		}
 	}()
 	if l.sink < 0 && s.chaos && e.Contains(event.EntityRemoved) {
+		// a listener that opens as many queries as the world lets it and closes them again: the removal's own lock
+		// must survive that
+		if s.chaosSeq%8 == 3 {
+			var qs []*ecs.Query
+			for i := 0; i < ecs.MaskTotalBits+4; i++ {
+				ok := func() (ok bool) {
+					defer func() { ok = recover() == nil }()
+					q := w.Query(ecs.All())
+					qs = append(qs, &q)
+					return
+				}()
+				if !ok {
+					break
+				}
+			}
+			for i := range qs {
+				q := qs[(i*7+3)%len(qs)] // some order that is neither first-in-first-out nor last-in-first-out
+				if len(qs)%7 == 0 {
+					q = qs[i]
+				}
+				func() {
+					defer func() { recover() }()
+					q.Close()
+				}()
+			}
+			ev.UnlockedAfterNested = !w.IsLocked()
+		}
 		// a listener that tries to modify the world inside a removal notification: must be refused
 		escaped := false
 		func() {
